@@ -13,4 +13,5 @@ print("|---|---|---|---|")
 for name, r in sorted(rows.items()):
     if "exit" not in r: continue
     verdict = {1: "**caught** (%d signatures)" % r["sigs"], 0: "not caught"}.get(r["exit"], "exit %d" % r["exit"])
+    if r["exit"] in (132, 134, 135, 136, 139): verdict = "**caught** as a crash (signal %d inside library code; `./check` prints VIOLATION ...|crash with the crashing case)" % (r["exit"] - 128)
     print("| %s | %s | %s | %s |" % (name, r["prop"], r.get("suite", "?"), verdict))
